@@ -775,6 +775,49 @@ func (c *Ctx) checkBucketCacheGet(rule string) {
 			if !ok || staticCallee(call) == nil || !c.inModule(staticCallee(call)) {
 				return false
 			}
+			// a builder, not another cache: neither the callee nor what it calls reads a stored bucket storage
+			storageT := fStorageBuckets
+			readsStored := false
+			seenB := map[*ssa.Function]bool{}
+			var scan func(g *ssa.Function, d int)
+			scan = func(g *ssa.Function, d int) {
+				if g == nil || g.Blocks == nil || seenB[g] || d > 3 || !c.inModule(g) || readsStored {
+					return
+				}
+				seenB[g] = true
+				instrsOf(g, func(in ssa.Instruction) {
+					var t types.Type
+					switch x := in.(type) {
+					case *ssa.Lookup:
+						if mt, isMap := x.X.Type().Underlying().(*types.Map); isMap {
+							t = mt.Elem()
+						}
+					case *ssa.Next:
+						if !x.IsString {
+							if tup, isT := x.Type().(*types.Tuple); isT && tup.Len() == 3 {
+								t = tup.At(2).Type()
+							}
+						}
+					case ssa.CallInstruction:
+						if h := staticCallee(x); h != nil {
+							scan(h, d+1)
+						}
+					}
+					if t != nil {
+						if st, isSt := deref(t).Underlying().(*types.Struct); isSt {
+							for i := 0; i < st.NumFields(); i++ {
+								if st.Field(i) == storageT {
+									readsStored = true
+								}
+							}
+						}
+					}
+				})
+			}
+			scan(staticCallee(call), 0)
+			if readsStored {
+				return false
+			}
 			for _, a := range call.Call.Args {
 				if canon(a) == ssa.Value(req) {
 					return true
